@@ -3,3 +3,5 @@ pub mod sparql;
 pub mod update;
 pub mod oracle_datalog;
 pub mod gen_datalog;
+pub mod parse_oracle;
+pub mod rt_oracle;
